@@ -5,7 +5,7 @@ ID=$1; V=$2; W=/tmp/wt/$ID; S=$W/SEED/$V
 export GOFLAGS=-mod=mod GOPROXY=off GOSUMDB=off GOTOOLCHAIN=local GOWORK=off
 cd $W || exit 2
 git checkout -q -- . 
-CMD=$(grep -h -o 'go test [^`]*' $S/demo_test.go | grep -v '\./\.\.\.' | head -1 | sed 's/[[:space:]]*$//')
+CMD=$(grep -h -o 'go test [^`]*' $S/demo_test.go | grep -v '\./\.\.\.' | head -1 | sed 's/ *(.*$//; s/[[:space:]]*$//')
 [ -z "$CMD" ] && CMD=$(grep -h -o 'go test [^`]*' $S/README.md | grep -v '\./\.\.\.' | head -1)
 echo "demo cmd: $CMD"
 DD=$(echo "$CMD" | grep -o '\./[A-Za-z0-9_/.-]*' | tail -1 | sed 's#/\.\.\.$##')
